@@ -464,7 +464,8 @@ tre_tnfa_run_parallel(hawk_gem_t* gem, const tre_tnfa_t *tnfa, const void *strin
 							/* The new path wins. */
 							tmp_iptr = *reach_pos[trans_i->state_id].tags;
 							*reach_pos[trans_i->state_id].tags = tmp_tags;
-							if (trans_i->state == tnfa->final)
+							if (trans_i->state == tnfa->final
+							        && (match_eo == -1 || (num_tags > 0 && tmp_tags[0] <= match_tags[0])))
 							{
 								DPRINT(("	 found better match\n"));
 								match_eo = pos;
